@@ -1,6 +1,6 @@
 (* C12 — Logical functions are truth-functional; type predicates classify values.
    Property theorems only; proofs are in Proofs/LogicProofs.v, Proofs/LogicAlgebra.v and Proofs/ValueProofs.v. *)
-From HX Require Import Model.Value Model.Logic Proofs.ValueProofs Proofs.LogicProofs Proofs.LogicAlgebra.
+From HX Require Import Model.Value Model.Logic Model.LogicShape Gen.LogicFns Proofs.ValueProofs Proofs.LogicProofs Proofs.LogicAlgebra Proofs.LogicSource.
 From Coq Require Import Permutation.
 Open Scope Z_scope.
 
@@ -122,6 +122,22 @@ Proof. exact XOR_two. Qed.
 Theorem C12_NOT_NOT : forall v, is_err v = false -> exists r, fn_NOT [v] = Ret r /\ fn_NOT [r] = Ret (VBool (truthy v)).
 Proof. exact NOT_NOT. Qed.
 
+(* the source terms of AND / OR / XOR / NOT / IF (Gen/LogicFns.v, regenerated from logic.py on every run) ARE the model
+   functions the theorems above speak about (Proofs/LogicSource.v) *)
+Theorem C12_source_functions_are_the_model : forall args,
+  run_variadic gen_AND args = fn_AND args /\ run_variadic gen_OR args = fn_OR args /\ run_variadic gen_XOR args = fn_XOR args /\
+  run_fixed gen_NOT args = fn_NOT args /\ run_fixed gen_IF args = fn_IF args.
+Proof.
+  intros args. exact (conj (source_AND_is_model args) (conj (source_OR_is_model args) (conj (source_XOR_is_model args)
+                       (conj (source_NOT_is_model args) (source_IF_is_model args))))).
+Qed.
+Theorem C12_source_understood : logic_gen_ok = true.
+Proof. exact source_understood. Qed.
+Theorem C12_source_error_in_condition : forall args pre post e, flatten_args args = pre ++ VErr e :: post -> no_errors pre ->
+  run_variadic gen_AND args = Ret (VErr e) /\ run_variadic gen_OR args = Ret (VErr e) /\ run_variadic gen_XOR args = Ret (VErr e).
+Proof. exact source_error_first. Qed.
+
+Print Assumptions C12_source_functions_are_the_model.
 Print Assumptions C12_order_free.
 Print Assumptions C12_de_morgan.
 Print Assumptions C12_AND.
